@@ -106,8 +106,8 @@ CLAIMED = {
         "addF_close / addF_close_exact - for ALL positive a, b the double add succeeds within 4*2^-53 relative of the exact "
         "harmonic sum; subtractF_close - the same for subtract with the cancellation's condition number k in the bound "
         "(2k+4)*2^-53; addF_zero, subtractF_self, addF_ne_zero), the oracle's 1e-9 is far inside. Partial: the doubles of dots() are tied by table equality on "
-        "the vocabulary, not proved from the rounding model; integers beyond 2^53 as beat units are outside the explored domain. Two defects "
-        "repaired by fix: commits (4362669, c717ce2).",
+        "the vocabulary, not proved from the rounding model. Three defects "
+        "repaired by fix: commits (4362669, c717ce2, 0ba7c99 - integer beat units above 2^53, explored up to 2^200 since).",
    design="§4 C09"),
  "C10": dict(
    text="Lean theorems for every valid name (any accidentals) and every octave: int_spec (12*octave + natural + sharps - flats), "
@@ -196,8 +196,8 @@ CLAIMED = {
         "random histories vs the heap model and a cold-interpreter battery, introspection-driven argument/result aliasing over "
         "every public function, sibling-instance scripts, lookups vs a freshly imported module.",
    note=TRUST + "For functions that only read their arguments the Lean statement is trivial (pure functions); that clause is carried by "
-        "the introspection-driven harness. Four defects repaired by fix: commits (63e0c48, a024b61, 3c0ca1c, 44ee165) plus "
-        "5e2170b (substitute) shared with C08.",
+        "the introspection-driven harness. Five defects repaired by fix: commits (63e0c48, a024b61, 3c0ca1c, 44ee165, 5712382 - "
+        "Note() wrote into the caller's dynamics dictionary) plus 5e2170b (substitute) shared with C08.",
    design="§4 C15"),
  "C16": dict(
    text="Model of MidiTrack as the pending-delta state machine the code is (events appended with whatever delta is pending). Lean, "
